@@ -16,6 +16,7 @@ OPTFWD-1   naming options reach the code that uses them: framework generators fo
 from __future__ import annotations
 
 import ast
+import re
 from typing import List, Tuple
 
 from ..ctx import Ctx
@@ -249,11 +250,16 @@ def _has_disambiguation(f: FuncInfo, init: FuncInfo) -> Tuple[bool, str]:
                     (isinstance(v, ast.Call) and norm(v.func) in ("set", "dict", "defaultdict", "Counter", "collections.Counter", "list")
                      and not v.args)):
                 containers.add(t.attr)
+    in_assert = {id(x) for a in walk_no_nested(f.node) if isinstance(a, ast.Assert) for x in ast.walk(a)}
+    single_test = None
     for n in walk_no_nested(f.node):
         if isinstance(n, (ast.While, ast.If)):
             used = {x.attr for x in ast.walk(n.test) if isinstance(x, ast.Attribute) and isinstance(x.value, ast.Name)
                     and x.value.id == "self" and x.attr in containers}
             if not used:
+                continue
+            if isinstance(n, ast.If):
+                single_test = n     # tested once: the changed label is not looked up again
                 continue
             changed = {norm(s.target) for s in ast.walk(n) if isinstance(s, ast.AugAssign)} | \
                       {norm(t) for s in ast.walk(n) if isinstance(s, ast.Assign) for t in s.targets}
@@ -261,11 +267,17 @@ def _has_disambiguation(f: FuncInfo, init: FuncInfo) -> Tuple[bool, str]:
             if changed & rets:
                 # the container must also learn the label (in the test itself or in the function)
                 learns = any(isinstance(c, ast.Call) and isinstance(c.func, ast.Attribute) and c.func.attr in ("setdefault", "add", "append", "update")
-                             and isinstance(c.func.value, ast.Attribute) and c.func.value.attr in used for c in walk_no_nested(f.node)) or any(
+                             and isinstance(c.func.value, ast.Attribute) and c.func.value.attr in used and id(c) not in in_assert
+                             for c in walk_no_nested(f.node)) or any(
                     isinstance(s, ast.Assign) and isinstance(s.targets[0], ast.Subscript) and isinstance(s.targets[0].value, ast.Attribute)
                     and s.targets[0].value.attr in used for s in walk_no_nested(f.node))
                 if learns:
                     return True, f"`{norm(n.test)[:60]}` consults self.{sorted(used)[0]} and changes `{sorted(changed & rets)[0]}` until it is free"
+                return False, ("the names handed out are recorded only inside an `assert`, which `python -O` removes: without it every "
+                               "label looks free")
+    if single_test is not None:
+        return False, (f"`{norm(single_test.test)[:60]}` is tested once (`if`, not a loop): the label with the suffix is not looked up "
+                       f"again, so a third key with the same label (\"fooBar\", \"foo_bar\", \"FooBar\") collides with the second")
     return False, "the name is a function of the key alone"
 
 
@@ -306,9 +318,23 @@ def rule_uniq1(ctx: Ctx) -> RuleResult:
             p = [a for a in g.params if a != "self"][0]
             bad = [r for r in rets if not (norm(r.value) == p or (isinstance(r.value, ast.Call) and norm(r.value.func).startswith("super()")
                                                                    and norm(r.value.func).endswith(".convert_field_name")))]
+            raw = [r for r in rets if norm(r.value) == p]
+            # a key handed back unchanged has to be known to the disambiguation, or a second key with that label collides
+            reserved = True
+            if raw:
+                reserved = any(
+                    (isinstance(x, ast.Assign) and isinstance(x.targets[0], ast.Subscript) and isinstance(x.targets[0].value, ast.Attribute)
+                     and norm(x.targets[0].value.value) == "self") or
+                    (isinstance(x, ast.Call) and isinstance(x.func, ast.Attribute) and x.func.attr in ("setdefault", "add", "update")
+                     and isinstance(x.func.value, ast.Attribute) and norm(x.func.value.value) == "self")
+                    for ms in k.methods.values() for m in ms for x in walk_no_nested(m.node))
+            okk = not bad and reserved
             rr.ob(g.relpath, g.qualname, norm(rets[0])[:70] if rets else g.name, "an override of the field-name conversion keeps the "
-                  "base class's disambiguation (it returns the key itself or the inherited result)", VIOLATED if bad else DISCHARGED,
-                  f"`{norm(bad[0])[:50]}` bypasses the inherited conversion" if bad else "key itself / inherited result", g.node.lineno)
+                  "base class's disambiguation (it returns the inherited result, or a key it has reserved)", DISCHARGED if okk else VIOLATED,
+                  f"`{norm(bad[0])[:50]}` bypasses the inherited conversion" if bad else
+                  ("key itself (reserved by the class) / inherited result" if reserved else
+                   f"`{norm(raw[0])[:40]}` hands the key back without reserving it: another key with the same label (\"p-k\" next to "
+                   f"\"pk\") gets the same field name"), g.node.lineno)
     return rr
 
 
@@ -333,6 +359,41 @@ def rule_uniq2(ctx: Ctx) -> RuleResult:
     calls = [n for n in walk_no_nested(entry.node) if isinstance(n, ast.Call) and isinstance(n.func, ast.Name) and n.func.id in mod.functions]
     calls.sort(key=lambda n: (n.lineno, n.col_offset))
 
+    def shared_set_problem(f: FuncInfo):
+        """For a recursive de-duplication pass: the set of names in use must be the same object at every nesting level,
+        and the recursion must be unconditional."""
+        recs = [n for n in walk_no_nested(f.node) if isinstance(n, ast.Call) and isinstance(n.func, ast.Name) and n.func.id == f.name]
+        if not recs:
+            # not recursive: it has to flatten the nested generators itself
+            walks_nested = any(isinstance(n, (ast.For, ast.While)) for n in walk_no_nested(f.node)) and \
+                sum(1 for g in ctx.prog.all_funcs() if g.parent is f) > 0
+            return None if walks_nested else "the pass neither recurses into nested generators nor collects them"
+        # the collection consulted by the membership test
+        coll = None
+        for n in walk_no_nested(f.node):
+            if isinstance(n, (ast.While, ast.If)):
+                for c in ast.walk(n.test):
+                    if isinstance(c, ast.Compare) and any(isinstance(o, (ast.In, ast.NotIn)) for o in c.ops) and isinstance(c.comparators[0], ast.Name):
+                        coll = c.comparators[0].id
+        if coll is None:
+            return None
+        for r in recs:
+            passed = [a for a in r.args if isinstance(a, ast.Name) and a.id == coll] + \
+                     [k.value for k in r.keywords if isinstance(k.value, ast.Name) and k.value.id == coll]
+            if not passed:
+                others = [norm(a) for a in r.args[1:]] + [f"{k.arg}={norm(k.value)}" for k in r.keywords]
+                return (f"the recursive call `{norm(r)[:60]}` does not hand the set `{coll}` itself to the nested level "
+                        f"({', '.join(others) or 'nothing'} is passed): names are compared level by level only, so two classes "
+                        f"under different parents (or a nested and a later root class) can still get the same name")
+            # unconditional?
+            p = f.module.parents.get(r)
+            while p is not None and p is not f.node:
+                if isinstance(p, (ast.If, ast.Try)) or (isinstance(p, ast.While)):
+                    return (f"the recursive call `{norm(r)[:50]}` sits under `{norm(p.test)[:40] if hasattr(p, 'test') else 'try'}`: nested "
+                            f"classes are de-duplicated only when that condition holds")
+                p = f.module.parents.get(p)
+        return None
+
     def dedups(f: FuncInfo) -> bool:
         has_set_name = any(isinstance(n, ast.Call) and norm(n.func).endswith("set_raw_name") for n in walk_no_nested(f.node))
         membership = any(isinstance(n, (ast.While, ast.If)) and any(isinstance(c, ast.Compare) and any(isinstance(o, (ast.In, ast.NotIn)) for o in c.ops)
@@ -354,6 +415,12 @@ def rule_uniq2(ctx: Ctx) -> RuleResult:
         kinds.append(("C" if constructs(g) else "") + ("D" if dedups(g) else "") + ("R" if renders(g) else ""))
     seq = "".join(k[:1] if k else "-" for k in kinds)
     ok = "C" in seq and "D" in seq and "R" in seq and seq.index("C") < seq.index("D") < seq.index("R")
+    if ok:
+        dfn = mod.functions[calls[seq.index("D")].func.id]
+        prob = shared_set_problem(dfn)
+        if prob:
+            rr.ob(dfn.relpath, dfn.qualname, dfn.name, st, VIOLATED, prob, dfn.node.lineno)
+            return rr
     rr.ob(entry.relpath, entry.qualname, " ; ".join(norm(c)[:40] for c in calls)[:110], st, DISCHARGED if ok else VIOLATED,
           f"construct -> de-duplicate -> render ({seq})" if ok else
           f"no de-duplication of class names between the construction of the generators and rendering (steps: {seq or 'none'}): "
@@ -410,11 +477,12 @@ def rule_label2(ctx: Ctx) -> RuleResult:
         while par is not None and par is not f.node:
             if isinstance(par, ast.BoolOp) and isinstance(par.op, ast.And):
                 idx = next((i for i, v in enumerate(par.values) if v is cur or any(cur is y for y in ast.walk(v))), None)
-                if idx and any(norm(v) in (s, f"len({s})", f"len({s}) > 0", f"{s} != ''") for v in par.values[:idx]):
+                if idx and any(norm(v) in (s, f"len({s})", f"len({s}) > 0", f"{s} != ''", f"{s}.strip('_')", f"{s}.lstrip('_')")
+                               for v in par.values[:idx]):
                     guarded = True
-            if isinstance(par, ast.If) and any(cur is x or any(cur is y for y in ast.walk(x)) for x in par.body):
+            if isinstance(par, (ast.If, ast.While)) and any(cur is x or any(cur is y for y in ast.walk(x)) for x in par.body):
                 tests = [par.test] + (list(par.test.values) if isinstance(par.test, ast.BoolOp) and isinstance(par.test.op, ast.And) else [])
-                if any(norm(t) in (s, f"len({s})", f"len({s}) > 0", f"{s} != ''") for t in tests):
+                if any(norm(t) in (s, f"len({s})", f"len({s}) > 0", f"{s} != ''", f"{s}.strip('_')", f"{s}.lstrip('_')") for t in tests):
                     guarded = True
             cur, par = par, mod.parents.get(par)
         if not guarded:
@@ -447,4 +515,184 @@ def rule_label2(ctx: Ctx) -> RuleResult:
           "leading underscores are taken off after the digit rewrite" if ok else
           "nothing removes a leading underscore: the key \"_x\" gives the pydantic field `_x`, which pydantic ignores (the "
           "value is dropped), and \"0abc\" gives `_abc`", f.node.lineno)
+    return rr
+
+
+# ---------------------------------------------------------------------------------------------------------------
+# LABEL-5: abstract interpretation of prepare_label over the class of the label's first character.
+#   L letter, D decimal digit, U underscore followed by something else, A nothing but underscores, E empty
+_ALL = frozenset("LDUAE")
+
+
+def _head_effect(f: FuncInfo, st: ast.stmt, s: str, state: frozenset, zero_empty: bool):
+    """Transfer function of one top-level statement of prepare_label on the first-character class (None = unknown shape)."""
+    txt = norm(st)
+    touches = any(isinstance(x, ast.Name) and x.id == s and isinstance(x.ctx, ast.Store) for x in ast.walk(st))
+    if not touches:
+        return state, None
+    # s = unidecode(s) / normalize(...) / underscore(s) / s += "_" : the head class is unchanged, except that non-word
+    # characters may appear or disappear (only before the stripping step)
+    if isinstance(st, ast.AugAssign) and isinstance(st.op, ast.Add):
+        return state, None
+    if isinstance(st, ast.Assign) and isinstance(st.value, ast.BinOp) and isinstance(st.value.op, ast.Add) and \
+            isinstance(st.value.left, ast.Constant) and isinstance(st.value.left.value, str) and st.value.left.value and \
+            norm(st.value.right) == s:
+        c0 = st.value.left.value[0]
+        return frozenset("L" if c0.isalpha() else ("D" if c0.isdecimal() else ("U" if c0 == "_" else "LDU"))), None
+    if isinstance(st, ast.If) and isinstance(st.test, ast.UnaryOp) and isinstance(st.test.op, ast.Not) and \
+            norm(st.test.operand) in (f"{s}.strip('_')", s, f"{s}.lstrip('_')"):
+        # only labels without any letter or digit take the branch
+        takes = state & ({"A", "E"} if "strip" in norm(st.test.operand) else {"E"})
+        cur = frozenset(takes)
+        for b in st.body:
+            if cur:
+                cur, err = _head_effect(f, b, s, cur, zero_empty)
+                if err:
+                    return state, err
+        return frozenset((state - takes) | cur), None
+    if isinstance(st, ast.If) and not _mentions_head(st.test, s):
+        # a branch that does not look at the head: join of the branches
+        out = set()
+        for body in (st.body, st.orelse or []):
+            cur = state
+            for b in body:
+                cur, err = _head_effect(f, b, s, cur, zero_empty)
+                if err:
+                    return state, err
+            out |= cur
+        if not st.orelse:
+            out |= state
+        if isinstance(st.test, ast.UnaryOp) and f"{s}.strip('_')" in norm(st.test.operand):
+            # `if not s.strip('_'): s = "<identifier>" + s`: only A and E take the branch
+            rest = state - {"A", "E"}
+            took = set()
+            cur = frozenset(state & {"A", "E"})
+            for b in st.body:
+                if isinstance(b, ast.Assign) and isinstance(b.value, ast.BinOp) and isinstance(b.value.left, ast.Constant) \
+                        and isinstance(b.value.left.value, str) and b.value.left.value[:1].isalpha():
+                    cur = frozenset("L") if cur else cur
+            return frozenset(rest | cur), None
+        return frozenset(out), None
+    if isinstance(st, ast.Assign) and isinstance(st.value, ast.Call):
+        fn = norm(st.value.func)
+        if fn.endswith("re.sub") or fn == "sub":
+            return _ALL, None
+        if fn.split(".")[-1] in ("unidecode", "normalize", "underscore", "camelize", "lower", "upper"):
+            return state, None
+    if isinstance(st, ast.Assign) and f"{s}.lstrip('_')" in txt:
+        return state, None          # only computes the count
+    if isinstance(st, ast.Assign) and isinstance(st.value, ast.BinOp) and "lstrip" not in txt:
+        v = norm(st.value)
+        # s = s[head:] + s[:head]
+        if re.fullmatch(rf"{s}\[(\w+):\] \+ {s}\[:\1\]", v):
+            out = set()
+            for c in state:
+                out |= {"L", "D", "A"} if c == "U" else {c}
+            return frozenset(out), None
+    if isinstance(st, ast.If) and _mentions_head(st.test, s):
+        # digit rewrite: if <s[0] is a digit>: s = ones[...] + "_" + s[1:]
+        if _is_digit_test(st.test, s) and any("ones[" in norm(b) for b in st.body):
+            out = set()
+            for c in state:
+                out |= ({"L", "U"} if zero_empty else {"L"}) if c == "D" else {c}
+            # "0" alone -> "_" : nothing but underscores
+            if "D" in state and zero_empty:
+                out.add("A")
+            return frozenset(out), None
+        if _is_underscore_test(st.test, s) and any(re.fullmatch(rf"{s} = {s}\[1:\] \+ '_'", norm(b)) for b in st.body):
+            out = set()
+            for c in state:
+                out |= {"L", "D", "U", "A"} if c == "U" else {c}
+            return frozenset(out), None
+    if isinstance(st, ast.If) and _mentions_head(st.test, s) and not _is_digit_test(st.test, s) and not _is_underscore_test(st.test, s):
+        out = set(state)
+        for body in (st.body, st.orelse or []):
+            cur = state
+            for b in body:
+                cur, err = _head_effect(f, b, s, cur, zero_empty)
+                if err:
+                    return state, err
+            out |= cur
+        return frozenset(out), None
+    if isinstance(st, ast.While):
+        t = norm(st.test)
+        exit_alpha = f"not {s}[0].isalpha()" in t or f"not {s}[:1].isalpha()" in t or f"not {s}.isidentifier()" in t
+        guarded = f"{s}.strip('_')" in t or f"{s}.lstrip('_')" in t or t.startswith(f"{s} and")
+        if exit_alpha and guarded:
+            # every iteration must change s (otherwise the loop does not end for some class)
+            return frozenset({"L"} | ({"A", "E"} & (state | {"A"}))), None
+        if _is_underscore_test(st.test, s):
+            out = set()
+            for c in state:
+                out |= {"L", "D", "A"} if c == "U" else {c}
+            return frozenset(out), None
+    return state, f"unrecognised statement shaping the head of the label: `{txt[:70]}`"
+
+
+def _mentions_head(test: ast.AST, s: str) -> bool:
+    t = norm(test)
+    return f"{s}[0]" in t or f"{s}.startswith" in t or f"{s}[:1]" in t
+
+
+def _is_digit_test(test: ast.AST, s: str) -> bool:
+    t = norm(test)
+    return ("'0' <= " + s + "[0]") in t or f"{s}[0].isdigit()" in t or f"{s}[0].isdecimal()" in t or f"{s}[0] in " in t and "0123456789" in t
+
+
+def _is_underscore_test(test: ast.AST, s: str) -> bool:
+    t = norm(test)
+    return f"{s}[0] == '_'" in t or f"{s}.startswith('_')" in t
+
+
+def rule_label5(ctx: Ctx) -> RuleResult:
+    rr = RuleResult("LABEL-5", "whatever the key, the label starts with a letter", floor=1)
+    f = _pl(ctx)
+    s = f.params[0]
+    ones = f.module.assigns.get("ones")
+    zero_empty = True
+    if ones and isinstance(ones[-1], (ast.List, ast.Tuple)) and ones[-1].elts and isinstance(ones[-1].elts[0], ast.Constant):
+        zero_empty = ones[-1].elts[0].value == ""
+    state = _ALL
+    trace = []
+    rr.instances += 1
+    st_txt = ("abstract run of prepare_label over the class of the first character (letter / digit / underscore / only "
+              "underscores / empty): at the return the label starts with a letter for every class the key can start with")
+    for st in f.node.body:
+        if isinstance(st, ast.Expr) and isinstance(st.value, ast.Constant):
+            continue
+        if isinstance(st, ast.Return):
+            break
+        # statements after the head is final (case conversion, black-list suffix) do not change the first class
+        new, err = _head_effect(f, st, s, state, zero_empty)
+        if err and isinstance(st, ast.Assign) and norm(st.targets[0]) == s and isinstance(st.value, ast.Call) and \
+                isinstance(st.value.func, ast.Name) and len(st.value.args) == 1 and norm(st.value.args[0]) == s:
+            # a helper of the same module that takes the label and returns it: run it abstractly
+            h = f.module.functions.get(st.value.func.id)
+            if h is not None and len(h.params) == 1:
+                hp = h.params[0]
+                cur, err = state, None
+                for hst in h.node.body:
+                    if isinstance(hst, ast.Return):
+                        if hst.value is None or norm(hst.value) != hp:
+                            err = f"helper {h.name} returns `{norm(hst)[:40]}`"
+                        break
+                    if isinstance(hst, ast.Expr) and isinstance(hst.value, ast.Constant):
+                        continue
+                    cur, err = _head_effect(h, hst, hp, cur, zero_empty)
+                    if err:
+                        break
+                if not err:
+                    new = cur
+        if err:
+            raise AnalysisError(f"LABEL-5: {err}")
+        if new != state:
+            trace.append(f"line {st.lineno}: {''.join(sorted(state))} -> {''.join(sorted(new))}")
+        state = new
+    ok = state <= {"L"}
+    names = {"D": "a digit", "U": "an underscore", "A": "nothing but underscores", "E": "nothing"}
+    rr.ob(f.relpath, f.qualname, "first character of the label", st_txt, DISCHARGED if ok else VIOLATED,
+          ("always a letter; " + "; ".join(trace)) if ok else
+          ("the label can start with " + ", ".join(names[c] for c in sorted(state - {"L"})) + " (" + "; ".join(trace) +
+           "): e.g. the key \"_1abc\" loses its underscore to the end and keeps the digit in front, which is no identifier"),
+          f.node.lineno)
     return rr
